@@ -103,6 +103,25 @@ def run(tier):
     chk.cmds.append("tlc PipelineTrace.tla (TRACE=<recorded stage-event traces>)")
     if len(verdicts) != len(obs):
         raise vlib.ToolError("judge returned %d verdicts for %d observations" % (len(verdicts), len(obs)))
+    # SETS of input files (projects of spec/MC_Project.tla incl. inheritance that closes across files): a run ends with Python for
+    # every file or with at least one diagnostic, never with a panic, and never with neither
+    import c13
+    pr = vlib.tlc("MC_Project", "MC_Project.cfg", constants={"N": 2 if tier == "quick" else 3}, xss="1g")
+    chk.add_tlc(pr)
+    pcases = pr.records
+    for i, c in enumerate(pcases):
+        c["id"] = i
+    _, presults = c13.observe(vh, pcases, False)
+    for c in pcases:
+        o = presults.get(c["id"])
+        chk.evaluations += 1
+        chk.traces += 1
+        runs_ = [] if o is None else list(o["runs"]) + list(o["perms"])
+        bad = "died" if o is None else "panic" if any(r.get("panic") for r in runs_) else \
+              "rejected-without-diagnostics" if any((not r["ok"]) and not r["errs"] for r in runs_) else None
+        if bad:
+            desc = [{"path": c13.PATHS[f["path"] - 1], "uses": f["uses"], "fault": f["fault"]} for f in c["files"]]
+            chk.violation({"project": desc, "case": {"files": c["files"], "perms": c["perms"]}, "clause": "violation:" + bad, "what": "violation:%s for project %s" % (bad, desc)}, key=bad + json.dumps(desc))
     by_obs = {o["id"]: o for o in obs}
     by_in = {c["id"]: c for c in inputs}
     counts, worst = {}, {"unify_per_char2": 0.0, "ms": 0}
@@ -146,6 +165,17 @@ def run(tier):
 def replay(path):
     payload = json.load(open(path))
     vh = vlib.build_harness()
+    if "case" in payload:       # a set of input files
+        import c13
+        case = dict(payload["case"], id=0)
+        _, res = c13.observe(vh, [case], False)
+        o = res.get(0)
+        runs_ = [] if o is None else list(o["runs"]) + list(o["perms"])
+        if o is None or any(r.get("panic") for r in runs_) or any((not r["ok"]) and not r["errs"] for r in runs_):
+            print("VIOLATION property=%s replay=%s" % (PROP, path))
+            return 1
+        print("REPLAY ok")
+        return 0
     obs = observe(vh, [{"id": 0, "src": payload["input"]}])
     bad = [o for o in obs if o["how"] != "returned" or (not o["ok"] and o["n"] == 0)]
     for o in obs:
